@@ -255,6 +255,20 @@ pub fn run(ctx: &Ctx) -> Report {
 				"X", "aX", "Xa", "s:X", "s:aXb", "sX:a", "//X", "//uX@h", "//X@h", "//hX", "//hX:1", "//h:1X", "//[::1]X", "/pX/q", "/p/Xq", "?X", "?aXb", "#X", "#aXb", "s://u@h:1/pX?qX#fX",
 				"s://h/p?q#fX", "s://h/p?qX#f", "s://hX/p?q#f", "X//h", "a/X:b",
 			]);
+			// schemes that software commonly treats specially (this crate: "data" under its feature)
+			for sch in ["data", "DATA", "Data", "http", "https", "file", "ftp", "urn", "mailto", "tag", "ws", "wss", "about", "blob", "javascript"] {
+				for tpl in ["S:", "S:a", "S:,a?b", "S:,a?", "S:,a#f?x", "S://h/p?q#f", "S:/p?q", "S:?q", "S:#f", "S:a:b?q#f", "S:text/plain;base64,QQ==?x#y", "S://h?q", "S://u@h:1"] {
+					texts.push(tpl.replace('S', sch).into_bytes());
+				}
+			}
+			// every printable ASCII character directly BEFORE a delimiter, at every offset modulo 8 / 16
+			// (word-at-a-time scanners depend on the neighbouring byte and on the position in the block)
+			for k in 0..=16usize {
+				let pad = "a".repeat(k);
+				for t in domains::ascii_sweep(&["s://h/PX?q#f", "s://h/p?PX#f", "s://PX/p", "PX:a", "s://u@h/PX/b"]) {
+					texts.push(String::from_utf8(t).unwrap().replace('P', &pad).into_bytes());
+				}
+			}
 			// offsets that do not fit 16 bits, one component at a time
 			let huge = "z".repeat(70_000);
 			for t in [format!("s://h/p?{huge}#f"), format!("s://h/{huge}/x?q#f"), format!("s://u@{huge}:1/p?q#f"), format!("s://h/p?q#{huge}"), format!("//{huge}@h/p"), format!("{huge}/x?q")] {
@@ -436,6 +450,17 @@ pub fn run_c03(ctx: &Ctx) -> Report {
 				one(&t, &mut r, &mut vs);
 			} else {
 				r.count("class_complete_rejected_by_reference", 1);
+			}
+		}
+		// every printable ASCII character directly BEFORE each authority delimiter, at every offset
+		// modulo 8 / 16 (word-at-a-time scanners depend on the neighbouring byte and on the position)
+		for k in 0..=16usize {
+			let pad = "a".repeat(k);
+			for t in domains::ascii_sweep(&["PX@example.org:8080", "PX:8080", "u@PX:8080", "u:PX@h", "PX@[::1]:80"]) {
+				let t = String::from_utf8(t).unwrap().replace('P', &pad).into_bytes();
+				if fr.valid(Kind::Authority, &t) {
+					one(&t, &mut r, &mut vs);
+				}
 			}
 		}
 		total.count(&format!("{}_auth_product", f.name()), r.states);
